@@ -193,6 +193,28 @@ Definition freq_must_reject (slack : Q) (m : list (list F32.t)) : bool :=
                       | Some q => negb (Qleb (Qabs (Qsum q - 1)) ((1 # 100) + slack))
                       end) m.
 
+
+(* Background::from_counts / from_sequence(s): frequency k = counts k / total (within
+   [eps], absolute); a zero total must be rejected; never a panic *)
+Definition check_bg_counts (eps : Q) (counts : list N) (obs : res (list F32.t)) : bool :=
+  let total := fold_left N.add counts 0%N in
+  if (total =? 0)%N then match obs with Err _ => true | _ => false end
+  else match obs with
+       | Ok l => (length l =? length counts)
+                 && forallb (fun b => b)
+                      (map2 (fun c x => match f32_to_Q x with
+                                        | Some q => Qleb (Qabs (q - (Z.of_N c # 1) / (Z.of_N total # 1))) eps
+                                        | None => false
+                                        end) counts l)
+       | _ => false
+       end.
+
+(* the counts that from_sequence(s) must use: occurrences of every symbol, the
+   wildcard only when [unknown] *)
+Definition bg_counts_spec (K : nat) (seqs : list (list nat)) (unknown : bool) : list N :=
+  map (fun k => if unknown || negb (k =? K - 1)
+                then N.of_nat (length (filter (fun x => x =? k) (concat seqs))) else 0%N) (seq 0 K).
+
 (* ---------- C10 ---------- *)
 
 (* the reverse complement is the row reversal combined with the column permutation *)
